@@ -55,6 +55,12 @@ Theorem c08_write_is_one_datagram : forall frame, frame <> [] ->
   write_all [WAccept (pred (snd (awrite frame)))] frame = (frame, WOk, []).
 Proof. exact awrite_write_all. Qed.
 
+(* the connection structs and the codec of the source have exactly the fields the models carry as state (regenerated field
+   names): nothing else can be left behind by a failed or dropped write *)
+Theorem c08_model_state_is_the_struct : state_tied = true.
+Proof. vm_compute. reflexivity. Qed.
+
+
 (* non-vacuity: two datagrams (two frames + one frame), slices of 3 bytes, then an empty datagram *)
 Example c08_example :
   run_adaptor_session Compressed false [([3;0;0], (0, CKeep)); ([3;1;2], (1, COther))]
